@@ -102,6 +102,7 @@ fn main() {
             cx.sink.add("corpus_fens_accepted", cx.corpus.fens.len() as u64);
             cx.sink.add("corpus_fens_rejected", cx.corpus.rejected as u64);
             cx.sink.add("corpus_mirrored_roots", cx.corpus.derived as u64);
+            cx.sink.add("corpus_ep_mark_without_predecessor", cx.corpus.ep_without_predecessor as u64);
             let known = match enc::guard(|| props::run(&prop, &mut cx)) {
                 Some(k) => k,
                 None => {
